@@ -24,7 +24,7 @@ def run(d):
     shutil.rmtree(sc, ignore_errors=True)
     return tag, res
 
-dirs = sorted(glob.glob(V + '/seeded/C*-m*')) + sorted(glob.glob(V + '/seeded/REGRESS-*')) + sorted(glob.glob(V + '/seeded/R2-*'))
+dirs = sorted(glob.glob(V + '/seeded/C*-m*')) + sorted(glob.glob(V + '/seeded/REGRESS-*')) + sorted(glob.glob(V + '/seeded/R2-*')) + sorted(glob.glob(V + '/benign/*'))
 if len(sys.argv) > 1:
     dirs = [d for d in dirs if any(a in d for a in sys.argv[1:])]
 out = {}
@@ -38,10 +38,18 @@ mp = V + '/seeded/MATRIX.json'
 old = json.load(open(mp)) if os.path.exists(mp) and len(sys.argv) > 1 else {}
 old.update(out)
 json.dump(old, open(mp, 'w'), indent=1, sort_keys=True)
+with open(V + '/benign/MATRIX.md', 'w') as fh:
+    fh.write('| behaviour-preserving variant | checks that raise an alarm (must be none) | exit 2 |\n|---|---|---|\n')
+    for tag in sorted(old):
+        if os.path.isdir(V + '/benign/' + tag) and 'apply_failed' not in old[tag]:
+            res = old[tag]
+            fh.write('| %s | %s | %s |\n' % (tag, ' '.join(p for p, v in res.items() if v['exit'] == 1) or 'none', ' '.join(p for p, v in res.items() if v['exit'] == 2) or 'none'))
 with open(V + '/seeded/MATRIX.md', 'w') as fh:
     fh.write('| seeded change | breaks | own check fires (rules) | other checks that fire | exit 2 |\n|---|---|---|---|---|\n')
     for tag in sorted(old):
         res = old[tag]
+        if os.path.isdir(V + '/benign/' + tag):
+            continue
         if 'apply_failed' in res:
             fh.write('| %s | - | patch no longer applies | | |\n' % tag); continue
         own = tag.split('-')[0]
